@@ -30,7 +30,95 @@ func GenLeaderPlan(seed uint64) *Plan {
 	p.Leader = pick(g, "carousel", "carousel", "reputation")
 	p.Ruleset = pick(g, "chainedhotstuff", "fasthotstuff")
 	p.Knobs = map[string]int{"blocks": g.rng(3, 40), "gapPct": pick(g, 0, 20, 50), "queries": g.rng(1, 4), "missPct": pick(g, 0, 0, 10), "extraSigners": g.intn(3)}
+	if g.p(0.3) {
+		// the stateless schemes, "for every view number and cluster size": any n, windows of consecutive views
+		// around seeded bases that include the corners of the 64-bit view space
+		p.Leader = pick(g, "round-robin", "round-robin", "fixed")
+		p.N = g.rng(1, 24)
+		p.Knobs["base"] = g.intn(12)
+		p.Knobs["offset"] = g.intn(40)
+		p.Knobs["windows"] = g.rng(1, 4)
+	}
 	return p
+}
+
+// runStatelessLeaders: two replicas' instances of a stateless rotation, asked the same windows of views.
+func runStatelessLeaders(p *Plan, res *Result, logf func(string, ...any), viol func(string, string, ...any)) {
+	st := res.Stats
+	n := p.N
+	bases := []uint64{0, 1 << 16, 1<<31 - 20, 1<<32 - 20, 3<<32 - 20, 1 << 40, 1<<53 - 20, 1 << 62, 1<<63 - 20, ^uint64(0) - 100, uint64(p.Inner), uint64(p.Inner) << 7}
+	mk := func(id hotstuff.ID) (leaderrotation.LeaderRotation, error) {
+		cfg := core.NewRuntimeConfig(id, nil, core.WithSharedRandomSeed(int64(p.Inner%1000003)))
+		for i := 1; i <= n; i++ {
+			cfg.AddReplica(&hotstuff.ReplicaInfo{ID: hotstuff.ID(i)})
+		}
+		lg := &simLogger{nd: &Node{w: &World{stats: st}}}
+		el := eventloop.New(lg, 16)
+		bc := blockchain.New(el, lg, &forestSender{avail: map[hotstuff.Hash]*hotstuff.Block{}})
+		base, err := crypto.New(cfg, crypto.NameEDDSA)
+		if err != nil {
+			return nil, err
+		}
+		vs, err := protocol.NewViewStates(bc, cert.NewAuthority(cfg, bc, base))
+		if err != nil {
+			return nil, err
+		}
+		return leaderrotation.New(lg, cfg, bc, vs, p.Leader, 3)
+	}
+	a, err := mk(1)
+	if err != nil {
+		res.Harness = err.Error()
+		return
+	}
+	b, err := mk(hotstuff.ID(n))
+	if err != nil {
+		res.Harness = err.Error()
+		return
+	}
+	ask := func(lr leaderrotation.LeaderRotation, v hotstuff.View) (id hotstuff.ID, panicked any) {
+		defer func() { panicked = recover() }()
+		return lr.GetLeader(v), nil
+	}
+	for wdw := 0; wdw < p.knob("windows", 1) && res.Violation == nil; wdw++ {
+		start := bases[(p.knob("base", 0)+wdw)%len(bases)] + uint64(p.knob("offset", 0))
+		var window []hotstuff.ID
+		for i := 0; i < n+3 && res.Violation == nil; i++ {
+			v := hotstuff.View(start + uint64(i)) // wraps around at the very top: still "any view number"
+			st.Steps++
+			la, pa := ask(a, v)
+			lb, pb := ask(b, v)
+			logf("view %d: %d %d", v, la, lb)
+			st.Probes["c16-stateless-query"]++
+			if pa != nil || pb != nil {
+				viol("C16/"+p.Leader+"/panic", "GetLeader(%d) panicked with n=%d: %v %v", v, n, pa, pb)
+				return
+			}
+			if la != lb {
+				viol("C16/"+p.Leader+"/disagree", "replicas 1 and %d name leaders %d and %d for view %d (n=%d)", n, la, lb, v, n)
+				return
+			}
+			if int(la) < 1 || int(la) > n {
+				viol("C16/"+p.Leader+"/unknown", "leader of view %d is %d, not one of the %d configured replicas", v, la, n)
+				return
+			}
+			window = append(window, la)
+			if p.Leader == "round-robin" && len(window) >= n && uint64(v) >= uint64(n) && uint64(v)-uint64(n)+1 <= uint64(v) {
+				// every replica exactly one turn in any n consecutive views
+				seen := map[hotstuff.ID]bool{}
+				for _, id := range window[len(window)-n:] {
+					if seen[id] {
+						viol("C16/round-robin/turns", "in the %d consecutive views ending at %d replica %d leads twice (leaders %v)", n, v, id, window[len(window)-n:])
+						return
+					}
+					seen[id] = true
+				}
+			}
+			if p.Leader == "fixed" && la != window[0] {
+				viol("C16/fixed/disagree", "the fixed leader changed from %d to %d at view %d", window[0], la, v)
+				return
+			}
+		}
+	}
 }
 
 func runLeaderWorld(t *testing.T, p *Plan, want []string, logw io.Writer) *Result {
@@ -51,6 +139,11 @@ func runLeaderWorld(t *testing.T, p *Plan, want []string, logw io.Writer) *Resul
 			res.Violation = &Violation{Property: "C16", Class: class, Step: st.Steps, Detail: fmt.Sprintf(format, a...)}
 			logf("VIOLATION %s %s", class, res.Violation.Detail)
 		}
+	}
+	if p.Leader == "round-robin" || p.Leader == "fixed" {
+		runStatelessLeaders(p, res, logf, viol)
+		res.WallMs = float64(time.Since(start).Microseconds()) / 1000
+		return res
 	}
 	n := p.N
 	f := 0
